@@ -122,7 +122,7 @@ func cmdCheck(args []string) int {
 	var keys []string
 	for _, k := range ss.Order {
 		c := ss.Contracts[k]
-		if !c.Trusted && hasProp(c.Props, prop) && !c.SpecOnly {
+		if !c.Trusted && hasProp(c.Props, prop) && !c.SpecOnly && !c.Inline {
 			keys = append(keys, k)
 		}
 	}
@@ -360,9 +360,11 @@ func cmdCheck(args []string) int {
 		},
 		"assumptions": globalAssumptions(),
 	}
-	os.MkdirAll(filepath.Join(verifDir, "evidence"), 0o755)
-	eb, _ := json.MarshalIndent(ev, "", " ")
-	os.WriteFile(filepath.Join(verifDir, "evidence", prop+".json"), eb, 0o644)
+	if os.Getenv("GOVC_NOEVIDENCE") == "" {
+		os.MkdirAll(filepath.Join(verifDir, "evidence"), 0o755)
+		eb, _ := json.MarshalIndent(ev, "", " ")
+		os.WriteFile(filepath.Join(verifDir, "evidence", prop+".json"), eb, 0o644)
+	}
 
 	fmt.Printf("govc: %s %s: %d functions/lemmas, %d obligations, %d discharged, %d known findings; load %.1fs solver %.1fs wall %.1fs\n",
 		prop, *tier, len(vcs), nObl, nDis, len(knownHits), loadS, solverTime, wall)
